@@ -606,3 +606,73 @@ func filesOf(p *load.Prog, pkg *packages.Package, names ...string) []*ast.File {
 	}
 	return out
 }
+
+// reachableFuncs: the functions of pkg that fd reaches through static calls,
+// method values and expressions, and function values listed in package-level
+// tables it mentions (a driver that runs its phases from a []func table).
+// fd's own function is included.
+func reachableFuncs(p *load.Prog, pkg *packages.Package, fd *ast.FuncDecl) map[*types.Func]bool {
+	info := pkg.TypesInfo
+	reach := map[*types.Func]bool{}
+	seenVar := map[types.Object]bool{}
+	var visitFn func(n ast.Node, depth int)
+	visitObj := func(o types.Object, depth int) {
+		switch x := o.(type) {
+		case *types.Func:
+			if x.Pkg() == pkg.Types && !reach[x] && depth < 8 {
+				reach[x] = true
+				if d := p.Decl(x); d != nil && d.Body != nil {
+					visitFn(d.Body, depth+1)
+				}
+			}
+		case *types.Var:
+			if x.Pkg() == nil || x.Parent() != pkg.Types.Scope() || seenVar[o] || depth >= 8 {
+				return
+			}
+			seenVar[o] = true
+			for _, f := range pkg.Syntax {
+				for _, d := range f.Decls {
+					gd, ok := d.(*ast.GenDecl)
+					if !ok {
+						continue
+					}
+					for _, sp := range gd.Specs {
+						vs, ok := sp.(*ast.ValueSpec)
+						if !ok {
+							continue
+						}
+						for i, nm := range vs.Names {
+							if info.Defs[nm] == o && i < len(vs.Values) {
+								visitFn(vs.Values[i], depth+1)
+							}
+						}
+					}
+				}
+			}
+		}
+	}
+	visitFn = func(n ast.Node, depth int) {
+		ast.Inspect(n, func(m ast.Node) bool {
+			switch x := m.(type) {
+			case *ast.Ident:
+				if o := info.Uses[x]; o != nil {
+					visitObj(o, depth)
+				}
+			case *ast.SelectorExpr:
+				if sel, ok := info.Selections[x]; ok {
+					if f, ok := sel.Obj().(*types.Func); ok {
+						visitObj(f, depth)
+					}
+				}
+			}
+			return true
+		})
+	}
+	if self, ok := info.Defs[fd.Name].(*types.Func); ok {
+		reach[self] = true
+	}
+	if fd.Body != nil {
+		visitFn(fd.Body, 0)
+	}
+	return reach
+}
